@@ -1,5 +1,8 @@
 import Xp.Proofs.C13i
+import Xp.Proofs.C13j
+import Xp.Model.C13Skel
 import Xp.Gen.C13
+import Xp.Gen.C13Skel
 /-
 C13 — dynamic controllers and watches stay consistent under any interleaving.
 
@@ -423,5 +426,389 @@ example : (runSched Cfg.fixed
 active informers under the lock, finds the kind active, and does not start a second source -/
 example : (runSched Cfg.fixed (init opsD2) (rep 0 3 ++ rep 1 7 ++ rep 2 3 ++ rep 1 3 ++ rep 2 5)).map
     (fun s => s.regs.length) = some 1 := by decide
+
+/-! ### regenerated control-flow skeletons (tie "a")
+
+`Xp.Gen.c13Flow…` is extracted from the CURRENT source by harness/main/c13_dump.go on every run:
+lock operations, deferred unlocks, early returns, loops with their break / continue, the calls that
+leave the engine, the writes to the engine's maps and flags, and the text of every condition.
+`skeleton_<fn>`: it equals the skeleton declared in Model/C13Skel.lean, where every entry names the
+model step that mirrors it. `trace_<fn>`: the sequences of lock operations (DERIVED from `Pc.held`,
+the lock state all the theorems above are about), calls and writes that the model performs for that
+function — on the longest path, on every early return and on the error paths — are paths of the
+regenerated skeleton (`accepts`: deferred calls run last-in-first-out at the return). Moving an
+unlock before a call, dropping the re-check under the write lock, releasing `e.mx` early in `Stop`,
+swapping two acquisitions, or a new early return between them breaks one of these. -/
+
+theorem skeleton_start : Xp.Gen.c13FlowStart = flowStart := by decide
+theorem skeleton_stop : Xp.Gen.c13FlowStop = flowStop := by decide
+theorem skeleton_isRunning : Xp.Gen.c13FlowIsRunning = flowIsRunning := by decide
+theorem skeleton_startWatches : Xp.Gen.c13FlowStartWatches = flowStartWatches := by decide
+theorem skeleton_getWatches : Xp.Gen.c13FlowGetWatches = flowGetWatches := by decide
+theorem skeleton_stopWatches : Xp.Gen.c13FlowStopWatches = flowStopWatches := by decide
+theorem skeleton_getCached : Xp.Gen.c13FlowGetCached = flowGetter ∧ Xp.Gen.c13FlowGetUncached = flowGetter := by decide
+theorem skeleton_gcInformers : Xp.Gen.c13FlowGCInformers = flowGCInformers := by decide
+theorem skeleton_sourceStart : Xp.Gen.c13FlowSourceStart = flowSourceStart := by decide
+theorem skeleton_sourceStop : Xp.Gen.c13FlowSourceStop = flowSourceStop := by decide
+theorem skeleton_gcNow : Xp.Gen.c13FlowGCNow = flowGCNow := by decide
+theorem skeleton_gcLoop : Xp.Gen.c13FlowGCLoop = flowGCLoop := by decide
+
+/-- The anchored callers hand the engine what the scenarios assume: XR and revision watches and the
+collector under the controller's own name and XR kind (definition reconciler), claim and XR watches
+without a collector (offered reconciler), composed-resource watches only, one per resource
+reference (XR reconciler). -/
+theorem callers_engine_calls :
+    Xp.Gen.c13CallsDefinition = callsDefinition ∧ Xp.Gen.c13CallsDefinitionOptions = callsDefinitionOptions ∧
+    Xp.Gen.c13CallsOffered = callsOffered ∧ Xp.Gen.c13CallsComposite = callsComposite := by
+  refine ⟨?_, ?_, ?_, ?_⟩ <;> (set_option maxRecDepth 20000 in decide)
+
+/-- One sequential story that takes every engine function through its branches: a start; a
+StartWatches that starts two watches and skips the one the caller supplied twice; one that finds
+nothing to start; a StopWatches that skips a watch without source and stops one; a Stop with one
+source left; calls for a controller that does not run; a Start that is repeated. -/
+def opsSeq : List Op :=
+  [.start 0, .startWatches 0 [cW 0, cW 0, cW 1], .startWatches 0 [cW 0], .stopWatches 0 [cW 5, cW 0],
+   .stop 0, .startWatches 0 [cW 0], .stopWatches 0 [cW 0], .getWatches 0, .start 0, .start 0,
+   .isRunning 0, .getWatches 0, .stopWatches 0 [cW 3], .stop 1]
+def schedSeq : List (Nat × Choice) :=
+  solo 0 3 ++ solo 1 12 ++ solo 2 5 ++ solo 3 8 ++ solo 4 8 { pick := cW 1 } ++ solo 5 2 ++ solo 6 2 ++
+  solo 7 2 ++ solo 8 3 ++ solo 9 2 ++ solo 10 2 ++ solo 11 4 ++ solo 12 4 ++ solo 13 2
+
+/-- the error paths: NewControllerFn fails; GetInformer fails in Start-, Stop- and StopWatches;
+AddEventHandler / RemoveEventHandler fail -/
+def opsErr : List Op :=
+  [.start 0, .start 0, .startWatches 0 [cW 0], .startWatches 0 [cW 0], .startWatches 0 [cW 0],
+   .stopWatches 0 [cW 0], .stopWatches 0 [cW 0], .stop 0, .stop 0]
+def flt : Choice := { fault := true, pick := cW 0 }
+def schedErr : List (Nat × Choice) :=
+  solo 0 1 ++ [(0, flt)] ++ solo 0 1 ++ solo 1 3 ++
+  solo 2 7 ++ [(2, flt)] ++ solo 2 1 ++             -- GetInformer fails in StoppableSource.Start
+  solo 3 8 ++ [(3, flt)] ++ solo 3 1 ++             -- AddEventHandler fails
+  solo 4 10 ++                                      -- succeeds
+  solo 5 5 ++ [(5, flt)] ++ solo 5 1 ++             -- GetInformer fails in StoppableSource.Stop
+  solo 6 6 ++ [(6, flt)] ++ solo 6 1 ++             -- RemoveEventHandler fails
+  solo 7 3 { pick := cW 0 } ++ [(7, flt)] ++ solo 7 2 ++    -- Stop: GetInformer fails
+  solo 8 4 { pick := cW 0 } ++ [(8, flt)] ++ solo 8 2       -- Stop: RemoveEventHandler fails
+
+/-- D12's interleaving: Stop runs between the read section and the write section of StartWatches -/
+def opsStraddle : List Op := [.start 0, .startWatches 0 [cW 0], .stop 0]
+def schedStraddle : List (Nat × Choice) := solo 0 3 ++ solo 1 5 ++ solo 2 4 ++ solo 1 2
+
+/-- the collector: stops one watch; finds nothing to stop; controller not running; List fails -/
+def opsGc : List Op :=
+  [.start 0, .startWatches 0 [⟨.xr, 7⟩, cW 0, cW 1], .gc 0 [xrLive [0]], .gc 0 [xrLive [0]], .gc 1 [], .gc 0 []]
+def schedGc : List (Nat × Choice) :=
+  solo 0 3 ++ solo 1 14 ++ solo 2 13 { perm := [cW 1] } ++ solo 3 5 ++ solo 4 3 ++ [(5, { fault := true })]
+
+/-- the schedules above are executable and end where they should (so the traces are traces of
+complete calls) -/
+example : (runTrace Cfg.fixed (init opsSeq) schedSeq).map (fun r => r.1.threads.map (·.pc)) =
+    some [.done .ok, .done .ok, .done .ok, .done (.count 1 true), .done .ok, .done .notRunning, .done .notRunning,
+          .done .notRunning, .done .ok, .done .ok, .done (.bool true), .done (.watches []), .done (.count 0 true), .done .ok] := by decide
+example : (runTrace Cfg.fixed (init opsErr) schedErr).map (fun r => r.1.threads.map (·.pc)) =
+    some [.done .err, .done .ok, .done .err, .done .err, .done .ok, .done (.count 0 false), .done (.count 0 false),
+          .done .err, .done .err] := by decide
+example : (runTrace Cfg.fixed (init opsStraddle) schedStraddle).map (fun r => r.1.threads.map (·.pc)) =
+    some [.done .ok, .done .notRunning, .relE .ok] := by decide
+example : (runTrace Cfg.fixed (init opsGc) schedGc).map (fun r => r.1.threads.map (·.pc)) =
+    some [.done .ok, .done .ok, .done (.count 1 true), .done .ok, .done .err, .done .err] := by decide
+
+/-- `Start`: new controller; already running (early return under the deferred unlock); NewControllerFn fails -/
+theorem trace_start :
+    isPath skipStart Xp.Gen.c13FlowStart (traceOf Cfg.fixed opsSeq schedSeq 0 .start) = true ∧
+    isPath skipStart Xp.Gen.c13FlowStart (traceOf Cfg.fixed opsSeq schedSeq 9 .start) = true ∧
+    isPath skipStart Xp.Gen.c13FlowStart (traceOf Cfg.fixed opsErr schedErr 0 .start) = true ∧
+    traceOf Cfg.fixed opsSeq schedSeq 0 .start = some ["mx.Lock", "co.nc", "set controllers[]", "mx.Unlock"] := by decide
+
+/-- `Stop`: `e.mx` then `c.mx`, sources stopped and deleted one by one, cancel / stopped / delete
+under both locks, released in reverse order; not running; a failing source Stop returns with the
+controller still registered -/
+theorem trace_stop :
+    isPath [] Xp.Gen.c13FlowStop (traceOf Cfg.fixed opsSeq schedSeq 4 .stop) = true ∧
+    isPath [] Xp.Gen.c13FlowStop (traceOf Cfg.fixed opsSeq schedSeq 13 .stop) = true ∧
+    isPath [] Xp.Gen.c13FlowStop (traceOf Cfg.fixed opsErr schedErr 7 .stop) = true ∧
+    isPath [] Xp.Gen.c13FlowStop (traceOf Cfg.fixed opsErr schedErr 8 .stop) = true ∧
+    traceOf Cfg.fixed opsSeq schedSeq 4 .stop =
+      some ["mx.Lock", "c.mx.Lock", "w.Stop", "delete c.sources", "c.cancel", "set c.stopped", "delete controllers",
+            "c.mx.Unlock", "mx.Unlock"] := by decide
+
+theorem trace_isRunning :
+    isPath [] Xp.Gen.c13FlowIsRunning (traceOf Cfg.fixed opsSeq schedSeq 10 .isRunning) = true ∧
+    traceOf Cfg.fixed opsSeq schedSeq 10 .isRunning = some ["mx.RLock", "mx.RUnlock"] := by decide
+
+/-- `StartWatches`: two watches started and a duplicate skipped; nothing to start (returns after
+the read section); not running; D12's re-check under the write lock; the three error returns -/
+theorem trace_startWatches :
+    isPath skipStartWatches Xp.Gen.c13FlowStartWatches (traceOf Cfg.fixed opsSeq schedSeq 1 .startWatches) = true ∧
+    isPath skipStartWatches Xp.Gen.c13FlowStartWatches (traceOf Cfg.fixed opsSeq schedSeq 2 .startWatches) = true ∧
+    isPath skipStartWatches Xp.Gen.c13FlowStartWatches (traceOf Cfg.fixed opsSeq schedSeq 5 .startWatches) = true ∧
+    isPath skipStartWatches Xp.Gen.c13FlowStartWatches (traceOf Cfg.fixed opsStraddle schedStraddle 1 .startWatches) = true ∧
+    isPath skipStartWatches Xp.Gen.c13FlowStartWatches (traceOf Cfg.fixed opsErr schedErr 2 .startWatches) = true ∧
+    isPath skipStartWatches Xp.Gen.c13FlowStartWatches (traceOf Cfg.fixed opsErr schedErr 3 .startWatches) = true ∧
+    traceOf Cfg.fixed opsSeq schedSeq 1 .startWatches =
+      some ["mx.RLock", "mx.RUnlock", "infs.ActiveInformers", "c.mx.RLock", "c.mx.RUnlock", "c.mx.Lock",
+            "infs.ActiveInformers", "c.ctrl.Watch", "set c.sources[]", "set started[]", "c.ctrl.Watch",
+            "set c.sources[]", "set started[]", "c.mx.Unlock"] ∧
+    traceOf Cfg.fixed opsStraddle schedStraddle 1 .startWatches =
+      some ["mx.RLock", "mx.RUnlock", "infs.ActiveInformers", "c.mx.RLock", "c.mx.RUnlock", "c.mx.Lock", "c.mx.Unlock"] := by decide
+
+theorem trace_getWatches :
+    isPath [] Xp.Gen.c13FlowGetWatches (traceOf Cfg.fixed opsSeq schedSeq 11 .getWatches) = true ∧
+    isPath [] Xp.Gen.c13FlowGetWatches (traceOf Cfg.fixed opsSeq schedSeq 7 .getWatches) = true ∧
+    isPath [] Xp.Gen.c13FlowGetWatches (traceOf Cfg.fixed opsGc schedGc 2 .getWatches) = true ∧
+    isPath [] Xp.Gen.c13FlowGetWatches (traceOf Cfg.fixed opsGc schedGc 4 .getWatches) = true ∧
+    traceOf Cfg.fixed opsSeq schedSeq 11 .getWatches = some ["mx.RLock", "mx.RUnlock", "c.mx.RLock", "c.mx.RUnlock"] := by decide
+
+/-- `StopWatches`: a watch without source skipped and one stopped; nothing to stop; not running;
+the collector's call; a failing source Stop -/
+theorem trace_stopWatches :
+    isPath [] Xp.Gen.c13FlowStopWatches (traceOf Cfg.fixed opsSeq schedSeq 3 .stopWatches) = true ∧
+    isPath [] Xp.Gen.c13FlowStopWatches (traceOf Cfg.fixed opsSeq schedSeq 12 .stopWatches) = true ∧
+    isPath [] Xp.Gen.c13FlowStopWatches (traceOf Cfg.fixed opsSeq schedSeq 6 .stopWatches) = true ∧
+    isPath [] Xp.Gen.c13FlowStopWatches (traceOf Cfg.fixed opsGc schedGc 2 .stopWatches) = true ∧
+    isPath [] Xp.Gen.c13FlowStopWatches (traceOf Cfg.fixed opsErr schedErr 5 .stopWatches) = true ∧
+    isPath [] Xp.Gen.c13FlowStopWatches (traceOf Cfg.fixed opsErr schedErr 6 .stopWatches) = true ∧
+    traceOf Cfg.fixed opsSeq schedSeq 3 .stopWatches =
+      some ["mx.RLock", "mx.RUnlock", "c.mx.RLock", "c.mx.RUnlock", "c.mx.Lock", "w.Stop", "delete c.sources", "c.mx.Unlock"] := by decide
+
+/-- `StoppableSource.Start` / `Stop`, as run inside StartWatches, StopWatches and Stop -/
+theorem trace_source :
+    isPath skipSourceStart Xp.Gen.c13FlowSourceStart (traceOf Cfg.fixed opsErr schedErr 4 .srcStart) = true ∧
+    isPath skipSourceStart Xp.Gen.c13FlowSourceStart (traceOf Cfg.fixed opsErr schedErr 2 .srcStart) = true ∧
+    isPath skipSourceStart Xp.Gen.c13FlowSourceStart (traceOf Cfg.fixed opsErr schedErr 3 .srcStart) = true ∧
+    isPath [] Xp.Gen.c13FlowSourceStop (traceOf Cfg.fixed opsSeq schedSeq 3 .srcStop) = true ∧
+    isPath [] Xp.Gen.c13FlowSourceStop (traceOf Cfg.fixed opsSeq schedSeq 4 .srcStop) = true ∧
+    isPath [] Xp.Gen.c13FlowSourceStop (traceOf Cfg.fixed opsErr schedErr 5 .srcStop) = true ∧
+    isPath [] Xp.Gen.c13FlowSourceStop (traceOf Cfg.fixed opsErr schedErr 6 .srcStop) = true ∧
+    traceOf Cfg.fixed opsErr schedErr 4 .srcStart = some ["infs.GetInformer", "i.AddEventHandler", "set reg"] ∧
+    traceOf Cfg.fixed opsSeq schedSeq 4 .srcStop = some ["infs.GetInformer", "i.RemoveEventHandler", "set reg"] := by decide
+
+/-- `GarbageCollectWatchesNow`: List through the cached client, GetWatches, StopWatches; nothing
+to stop; GetWatches fails; List fails -/
+theorem trace_gcNow :
+    isPath skipGCNow Xp.Gen.c13FlowGCNow (traceOf Cfg.fixed opsGc schedGc 2 .gcNow) = true ∧
+    isPath skipGCNow Xp.Gen.c13FlowGCNow (traceOf Cfg.fixed opsGc schedGc 3 .gcNow) = true ∧
+    isPath skipGCNow Xp.Gen.c13FlowGCNow (traceOf Cfg.fixed opsGc schedGc 4 .gcNow) = true ∧
+    isPath skipGCNow Xp.Gen.c13FlowGCNow (traceOf Cfg.fixed opsGc schedGc 5 .gcNow) = true ∧
+    traceOf Cfg.fixed opsGc schedGc 2 .gcNow =
+      some ["engine.GetCached", "engine.GetCached.List", "engine.GetWatches", "engine.StopWatches"] := by decide
+
+/-- the interpreter discriminates: `Stop` releasing `e.mx` before `c.mx`, a `Stop` that cancels
+before it stopped the source, a StartWatches that does not list the active informers again under
+the write lock, and one that keeps holding the read lock while it takes the write lock are NOT
+paths of the skeletons -/
+example : accepts [] 400 flowStop [] ["mx.Lock", "c.mx.Lock", "w.Stop", "delete c.sources", "c.cancel", "set c.stopped",
+    "delete controllers", "mx.Unlock", "c.mx.Unlock"] = false := by decide
+example : accepts [] 400 flowStop [] ["mx.Lock", "c.mx.Lock", "c.cancel", "w.Stop", "delete c.sources", "set c.stopped",
+    "delete controllers", "c.mx.Unlock", "mx.Unlock"] = false := by decide
+example : accepts skipStartWatches 400 flowStartWatches [] ["mx.RLock", "mx.RUnlock", "infs.ActiveInformers", "c.mx.RLock",
+    "c.mx.RUnlock", "c.mx.Lock", "c.ctrl.Watch", "set c.sources[]", "set started[]", "c.mx.Unlock"] = false := by decide
+example : accepts skipStartWatches 400 flowStartWatches [] ["mx.RLock", "mx.RUnlock", "infs.ActiveInformers", "c.mx.RLock",
+    "c.mx.Lock", "c.mx.RUnlock", "c.mx.Unlock"] = false := by decide
+
+/-- Every step of the model that changes the shared state is an event of some Go function: no
+model step is without a counterpart in the skeletons (the ghost log of IsRunning aside). -/
+theorem state_changing_steps_are_events {cfg : Cfg} {s : Sys} {i : Nat} {t : Thread} {ch : Choice} {pc' : Pc} {act : Act}
+    (h : next cfg s i t ch = some (pc', act)) (hact : act ≠ .nop) (hlog : ∀ e, act ≠ .logEv e) :
+    callEvents cfg t pc' act ≠ [] := by
+  unfold next at h
+  unfold callEvents
+  unfold acquire at h
+  split at h <;> (try split at h) <;> (try split at h) <;> (try split at h) <;> simp_all <;>
+    (try (obtain ⟨rfl, rfl⟩ := h)) <;> simp_all
+
+/-! ### the tracking set is exact at the engine's level -/
+
+/-- `RemoveInformer g` (one step of the engine model; `cache_ops_are_atomic` justifies the single
+step): afterwards the kind is not active, its informer is gone and no handler sits on it — so the
+next `StartWatches` sees the kind as not active and restarts the watch. Monitors
+`C13:removed-informer-still-active`, `C13:removed-informer-still-live` on the real cache. -/
+theorem remove_informer_effect {cfg : Cfg} {s s' : Sys} {i g : Nat} {ch : Choice}
+    (ht : s.threads[i]? = some ⟨.removeInformer g, .idle⟩) (h : step cfg s i ch = some s') :
+    g ∉ s'.tracked ∧ aget g s'.live = none ∧ ∀ r ∈ s'.regs, r.wid.gvk ≠ g := by
+  unfold step at h
+  simp only [ht, next, Option.some.injEq] at h
+  subst h
+  refine ⟨?_, ?_, ?_⟩
+  · simp [Act.apply]
+  · simp only [Act.apply]; exact aget_adel_self g _
+  · intro r hr
+    simp only [Act.apply, List.mem_filter, decide_eq_true_eq] at hr
+    exact hr.2
+
+/-- Get / List / GetInformer / GetInformerForKind through the tracking cache mark the kind active,
+also when the wrapped cache fails (cache.go writes `active` before it calls it). Monitor
+`C13:read-informer-not-active`. -/
+theorem cache_read_marks_active {cfg : Cfg} {s s' : Sys} {i g : Nat} {ch : Choice}
+    (ht : s.threads[i]? = some ⟨.cacheRead g, .idle⟩) (h : step cfg s i ch = some s') :
+    g ∈ s'.tracked := by
+  unfold step at h
+  simp only [ht, next, Option.some.injEq] at h
+  subst h
+  rw [getInformer_eq, underGet_tracked]
+  simp only [markActive]
+  by_cases hc : g ∈ s.tracked
+  · simp [hc]
+  · simp [hc]
+
+example : (runSched Cfg.fixed (init [.cacheRead 3, .removeInformer 3, .cacheRead 4]) [(0, {}), (1, {}), (2, { fault := true })]).map
+    (fun s => (s.tracked, s.live)) = some ([4], []) := by decide
+
+/-! ### cache.go at lock granularity: the tracking cache's operations are atomic
+
+Model/C13Cache.lean splits every entry point of InformerTrackingCache at each acquire / release of
+the cache's own RW lock (read section, the gap between `RUnlock` and `Lock`, write section that
+writes `active` without looking again). The theorems quantify over every initial cache state `b`,
+every list of operations `ops` (any number of goroutines, any kinds), every interleaving and every
+fault of the wrapped cache. They discharge, inside the model, the assumption under which the
+engine model above treats `Act.getInformer` / `Act.rmInformer` / the read of `tracked` as single
+steps. -/
+
+/-- no reader and writer, and no two writers, of `active` at the same time -/
+theorem cache_mutual_exclusion {b : Sys} {ops : List COp} {s : CSys} (h : CReach b ops s)
+    {i j : Nat} {ti tj : CThread} (hij : i ≠ j) (hi : s.threads[i]? = some ti) (hj : s.threads[j]? = some tj) :
+    ti.pc.held.compat tj.pc.held = true :=
+  (CInv_reach h).mutex i j ti tj hij hi hj
+
+/-- `active` is written only by a goroutine that holds the write lock before and after the write -/
+theorem cache_writes_hold_lock {s s' : CSys} {i : Nat} {f : Bool} {t : CThread}
+    (ht : s.threads[i]? = some t) (h : cstep s i f = some s') (hw : s'.base.tracked ≠ s.base.tracked) :
+    t.pc.held = .w ∧ ∃ t', s'.threads[i]? = some t' ∧ t'.pc.held = .w := by
+  unfold cstep at h
+  simp only [ht] at h
+  cases hn : cnext s i t f with
+  | none => simp [hn] at h
+  | some p =>
+    obtain ⟨pc', b'⟩ := p
+    simp only [hn, Option.some.injEq] at h
+    subst h
+    have hlt : i < s.threads.length := by
+      rcases Nat.lt_or_ge i s.threads.length with hl | hl
+      · exact hl
+      · rw [List.getElem?_eq_none hl] at ht; cases ht
+    rcases cnext_tracked hn with htr | hwr
+    · exact absurd htr hw
+    · refine ⟨by rw [hwr]; rfl, { t with pc := pc' }, by simp [List.getElem?_set_self hlt], ?_⟩
+      unfold cnext at hn
+      rw [hwr] at hn
+      simp only at hn
+      split at hn <;> (cases hn; rfl)
+
+/-- The lock dance cannot deadlock: in EVERY state with an unfinished operation some goroutine can
+take a step (a holder of the lock never waits; when nobody holds it every waiter may take it). -/
+theorem cache_no_deadlock {s : CSys} {k : Nat} {tk : CThread}
+    (hk : s.threads[k]? = some tk) (hnd : ∀ f, tk.pc ≠ .done f) :
+    ∃ i f s', cstep s i f = some s' := by
+  by_cases hh : ∃ (j : Nat) (u : CThread), s.threads[j]? = some u ∧ u.pc.held ≠ .n
+  · obtain ⟨j, u, hu, hheld⟩ := hh
+    have : ∃ p, cnext s j u false = some p := by
+      unfold cnext
+      cases hpc : u.pc <;> simp only [hpc, CPc.held, ne_eq, not_true_eq_false] at hheld ⊢
+      · cases u.op <;> simp <;> split <;> simp
+      · cases u.op <;> simp
+      · simp
+      · simp
+    obtain ⟨p, hp⟩ := this
+    exact ⟨j, false, { base := p.2, threads := s.threads.set j { u with pc := p.1 } }, by simp [cstep, hu, hp]⟩
+  · have hfree : ∀ m, cfree s k m = true := by
+      intro m
+      apply cfree_of
+      intro j u hu _
+      have : u.pc.held = .n := by
+        by_cases hn : u.pc.held = .n
+        · exact hn
+        · exact absurd ⟨j, u, hu, hn⟩ hh
+      rw [this]; exact Mode.compat_n m
+    have : ∃ p, cnext s k tk false = some p := by
+      unfold cnext
+      cases hpc : tk.pc <;> simp only [hfree, if_true]
+      · cases tk.op <;> simp
+      · cases tk.op <;> simp <;> split <;> simp
+      · simp
+      · cases tk.op <;> simp
+      · simp
+      · simp
+      · exact absurd hpc (hnd _)
+    obtain ⟨p, hp⟩ := this
+    exact ⟨k, false, { base := p.2, threads := s.threads.set k { tk with pc := p.1 } }, by simp [cstep, hk, hp]⟩
+
+/-- Every step of an entry point either leaves the cache state alone, or is THE step of that call
+(it has exactly one: `applied` turns true and never back) and changes the state exactly as the single
+step of the engine model does: `Act.getInformer g fault` for Get / List / GetInformer /
+GetInformerForKind, `Act.rmInformer g` for RemoveInformer, nothing for ActiveInformers — on the
+fast path under the read lock as well as after the upgrade to the write lock, whatever other
+goroutines did in the gap. -/
+theorem cache_ops_are_atomic {b : Sys} {ops : List COp} {s s' : CSys} (h : CReach b ops s)
+    {i : Nat} {f : Bool} {t : CThread} (ht : s.threads[i]? = some t) (hs : cstep s i f = some s') :
+    ∃ t', s'.threads[i]? = some t' ∧ t'.op = t.op ∧
+      ((t'.pc.applied = t.pc.applied ∧ s'.base = s.base) ∨
+       (t.pc.applied = false ∧ t'.pc.applied = true ∧ s'.base = (atomicAct t.op f).apply s.base)) := by
+  unfold cstep at hs
+  simp only [ht] at hs
+  cases hn : cnext s i t f with
+  | none => simp [hn] at hs
+  | some p =>
+    obtain ⟨pc', b'⟩ := p
+    simp only [hn, Option.some.injEq] at hs
+    subst hs
+    have hlt : i < s.threads.length := by
+      rcases Nat.lt_or_ge i s.threads.length with hl | hl
+      · exact hl
+      · rw [List.getElem?_eq_none hl] at ht; cases ht
+    exact ⟨{ t with pc := pc' }, by simp [List.getElem?_set_self hlt], rfl, cnext_atomic (CInv_reach h) ht hn⟩
+
+/-- Linearizability: at every moment of every run the state of the cache is the result of applying,
+one after the other in some order, the single-step operations of exactly those calls that have
+passed their step — each once. -/
+theorem cache_linearizable {b : Sys} {ops : List COp} {s : CSys} (h : CReach b ops s) :
+    ∃ acts : List (Nat × Bool),
+      s.base = applyAll ops b acts ∧ (acts.map (·.1)).Nodup ∧
+      ∀ i, i ∈ acts.map (·.1) ↔ ∃ t, s.threads[i]? = some t ∧ t.pc.applied = true := by
+  obtain ⟨acts, hl⟩ := Lin_reach h
+  exact ⟨acts, hl.base, hl.nodup, hl.applied⟩
+
+/-- a state in which all of this is non-trivial: a reader of an inactive kind sits in the gap
+between its two lock sections while a remover of the same kind and a second reader race it -/
+def cacheOps : List COp := [.read 0, .remove 0, .read 0, .active, .read 1]
+def cacheB0 : Sys := { init [] with tracked := [1], live := [(1, 0)], nextGen := 1 }
+def cacheSched : List (Nat × Bool) :=
+  [(0, false), (0, false),                         -- reader 0: RLock, sees "inactive", RUnlock  (now in the gap)
+   (2, false), (2, false), (2, false), (2, false), (2, false),   -- reader 2 goes all the way: marks kind 0 active, creates the informer
+   (1, false), (1, false), (1, false), (1, false), (1, false),   -- the remover sees "active", upgrades, deletes
+   (0, false), (0, false), (0, false),             -- reader 0 takes the write lock and marks the kind active again
+   (3, false), (3, false),                         -- ActiveInformers
+   (4, false), (4, true), (4, false)]              -- fast path, the wrapped call fails
+example : (cRunTrace "Get" (cinit cacheB0 cacheOps) cacheSched).map (fun r => (r.1.base.tracked, r.1.base.live, r.1.threads.map (·.pc))) =
+    some ([0, 1], [(0, 2), (1, 0)], [.done false, .done false, .done false, .done false, .done true]) := by decide
+def cacheS1 : CSys := ⟨cacheB0, [⟨.read 0, .rd false⟩, ⟨.remove 0, .idle⟩, ⟨.read 0, .idle⟩, ⟨.active, .idle⟩, ⟨.read 1, .idle⟩]⟩
+def cacheS2 : CSys := ⟨cacheB0, [⟨.read 0, .gap⟩, ⟨.remove 0, .idle⟩, ⟨.read 0, .idle⟩, ⟨.active, .idle⟩, ⟨.read 1, .idle⟩]⟩
+example : CReach cacheB0 cacheOps cacheS2 ∧ cacheS2.threads[0]? = some ⟨.read 0, .gap⟩ ∧ cacheS2.threads[2]? = some ⟨.read 0, .idle⟩ :=
+  ⟨.step 0 false (.step (s' := cacheS1) 0 false .init (by decide)) (by decide), by decide, by decide⟩
+
+theorem skeleton_activeInformers : Xp.Gen.c13FlowActiveInformers = flowActiveInformers := by decide
+theorem skeleton_cacheGet : Xp.Gen.c13FlowCacheGet = flowCacheRead preGVK "Get" := by decide
+theorem skeleton_cacheList : Xp.Gen.c13FlowCacheList = flowCacheRead preList "List" := by decide
+theorem skeleton_cacheGetInformer : Xp.Gen.c13FlowCacheGetInformer = flowCacheRead preGVK "GetInformer" := by decide
+theorem skeleton_cacheGetInformerForKind : Xp.Gen.c13FlowCacheGetInformerForKind = flowCacheRead [] "GetInformerForKind" := by decide
+theorem skeleton_cacheRemoveInformer : Xp.Gen.c13FlowCacheRemoveInformer = flowCacheRemove := by decide
+
+/-- the model's lock operations, writes and wrapped calls are paths of cache.go: slow path (reader 0,
+through the gap), slow path of the remover, fast path with a failing call, ActiveInformers; and the
+fast path of the remover (kind not active) -/
+theorem trace_cache :
+    isPath skipCache Xp.Gen.c13FlowCacheGet (cTraceOf "Get" cacheB0 cacheOps cacheSched 0) = true ∧
+    isPath skipCache Xp.Gen.c13FlowCacheList (cTraceOf "List" cacheB0 cacheOps cacheSched 2) = true ∧
+    isPath skipCache Xp.Gen.c13FlowCacheGetInformer (cTraceOf "GetInformer" cacheB0 cacheOps cacheSched 4) = true ∧
+    isPath skipCache Xp.Gen.c13FlowCacheGetInformerForKind (cTraceOf "GetInformerForKind" cacheB0 cacheOps cacheSched 0) = true ∧
+    isPath skipCache Xp.Gen.c13FlowCacheRemoveInformer (cTraceOf "Get" cacheB0 cacheOps cacheSched 1) = true ∧
+    isPath skipCache Xp.Gen.c13FlowCacheRemoveInformer
+      (cTraceOf "Get" cacheB0 [.remove 5] [(0, false), (0, false), (0, false)] 0) = true ∧
+    isPath skipCache Xp.Gen.c13FlowActiveInformers (cTraceOf "Get" cacheB0 cacheOps cacheSched 3) = true ∧
+    cTraceOf "Get" cacheB0 cacheOps cacheSched 0 =
+      some ["mx.RLock", "mx.RUnlock", "mx.Lock", "set active[]", "Cache.Get", "mx.Unlock"] ∧
+    cTraceOf "GetInformer" cacheB0 cacheOps cacheSched 4 = some ["mx.RLock", "Cache.GetInformer", "mx.RUnlock"] := by decide
+
+/-- a fast path that lets go of the read lock before it calls the wrapped cache is not a path of cache.go -/
+example : accepts skipCache 400 (flowCacheRead preGVK "GetInformer") [] ["mx.RLock", "mx.RUnlock", "Cache.GetInformer"] = false := by decide
 
 end Xp.C13
